@@ -32,6 +32,14 @@ OPTION_PROBES = [(ebb_calc.max_rate_t3, ["time", "rate", "accel", "jerk"], [41, 
 def body(ctx, case):
     """One profile, one or more durations in a row (case["also_T"]): every call must satisfy the statement,
     whatever was asked before."""
+    if case.get("t0"):
+        # a zero-duration query for this profile first (T = 0 is outside the quantifier: its result is not judged)
+        ctx.classes["zero_duration_query_first"] += 1
+        for fn in (ebb_calc.max_rate_t3, ebb_calc.rate_t3):
+            try:
+                fn(0, case["rate"], case["accel"], case["jerk"])
+            except Exception:  # pylint: disable=broad-except
+                pass
     durations = [case["T"]] + [t for t in case.get("also_T", [])]
     if case.get("also_first"):
         durations = durations[1:] + durations[:1]
@@ -112,6 +120,8 @@ def cases(draw):
                                          st.integers(max(1, T - 4), T)), min_size=1, max_size=3))
         case["also_T"] = others
         case["also_first"] = draw(st.booleans())
+    if draw(st.integers(0, 5)) == 0:
+        case["t0"] = True
     return case
 
 
